@@ -34,7 +34,17 @@ func c14engRun(out *rec.Out, idx int, rng *rec.Rng, tier string, stats map[strin
 	g := eng.NewGraph()
 	st := g.Add("startEvent", "start", "")
 	m := g.Add("exclusiveGateway", "M", "")
-	c := g.Add("intermediateCatchEvent", "C", "")
+	// a third of the cases put the catch event ALONE into an embedded sub-process (start -> C -> end inside): in that scope
+	// it is the only node besides the inner start event — the last one the scope registered as an event consumer
+	insub := idx%3 == 2
+	cpar := ""
+	var u *eng.Node
+	if insub {
+		u = g.Add("subProcess", "U", "")
+		cpar = u.ID
+		stats["catch_event_alone_in_a_sub_process"]++
+	}
+	c := g.Add("intermediateCatchEvent", "C", cpar)
 	c.ParallelMultiple = par
 	for i := 0; i < d; i++ {
 		c.Defs = append(c.Defs, eng.EventDef{Kind: "signal", Name: fmt.Sprintf("sig%d", i)})
@@ -44,8 +54,17 @@ func c14engRun(out *rec.Out, idx int, rng *rec.Rng, tier string, stats map[strin
 	x := g.Add("exclusiveGateway", "X", "")
 	en := g.Add("endEvent", "end", "")
 	g.Connect(st, m, nil)
-	g.Connect(m, c, nil)
-	g.Connect(c, t, nil)
+	if insub {
+		us := g.Add("startEvent", "us", u.ID)
+		ue := g.Add("endEvent", "ue", u.ID)
+		g.Connect(m, u, nil)
+		g.Connect(us, c, nil)
+		g.Connect(c, ue, nil)
+		g.Connect(u, t, nil)
+	} else {
+		g.Connect(m, c, nil)
+		g.Connect(c, t, nil)
+	}
 	g.Connect(t, x, nil)
 	g.Connect(x, m, &eng.Cond{Op: "lt", Var: "c1", K: rounds})
 	df := g.Connect(x, en, nil)
